@@ -426,4 +426,7 @@ def run(ctx, progs):
         r3_zeroing(ctx, P)
         r3b_zeroed_extensions(ctx, P)
         r4_no_foreign_writes(ctx, P)
+        from . import c13
+        from .poswrite import PosDiscipline
+        c13.r3_reclaim_boundary(ctx, P, PosDiscipline(P), R="C02.R5")
     ctx.config = None
